@@ -35,7 +35,6 @@ func init() {
 			{"PAN-HANDLER", 3, rulePanHandler},
 			{"PAN-CONVERT", 4, rulePanConvert},
 			{"TREE-NONNIL", 7, ruleTreeNonNil},
-			{"PAN-KEYFIELD", 10, rulePanKeyField},
 			{"PAN-PREFIX", 8, rulePanPrefix},
 			{"PAR-ADVANCE", 40, ruleParAdvance},
 			{"TERM-LOOPS", 30, ruleTermLoops},
